@@ -38,6 +38,9 @@ namespace PSC {
 
         void copyData(const Array &other);
 
+        // same element type; for records, the same fields all the way down
+        bool hasSameLayout(const Array &other) const;
+
         constexpr bool isArray() const override {return true;}
 
         // Allocates memory for elements
